@@ -81,8 +81,8 @@ Definition in_candidate (r : raw) : res value :=
   | RNumPtr (Some f) => Ok (VNum f)
   | RNumPtr None => OutOfModel            (* nil *float64 dereference: not generated *)
   | RNeutral s => Ok (VStr s)             (* compared through %v, which prints the string *)
-  | RVal (VObj ((_, v) :: nil)) => Ok v   (* subquery row: its single column *)
-  | RVal (VObj _) => OutOfModel           (* map iteration order decides: not generated *)
+  | RVal (VObj ((_, v) :: _)) => Ok v     (* a row of a subquery: its first column in key order (FirstColumn) *)
+  | RVal (VObj nil) => OutOfModel         (* an empty row: IN skips it, NOT IN compares the map itself: not generated *)
   | RVal v => Ok v
   | _ => OutOfModel
   end.
